@@ -46,6 +46,11 @@ func (v *regView) MaxLines() int { return v.lines() }
 func regKeys(regs *state.RegMap) []expr.Key {
 	keys := make([]expr.Key, 0, regs.Len())
 	for k := range regs.Values() {
+		// Instruction pointer is not listed (and not counted by lines
+		// method) as it's visualized by the cursor in the code.
+		if k == expr.IPKey {
+			continue
+		}
 		keys = append(keys, k)
 	}
 
